@@ -90,7 +90,7 @@ impl C05 {
         let input = || json!({"f": show(&f), "g": show(&g), "h": show(&h), "a": a, "b": b});
         let (lf, lg, lh) = (to_strict(&f), to_strict(&g), to_strict(&h));
         let (fs, ft, gt, hs, ht) = (f.src_type(), f.tgt_type(), g.tgt_type(), h.src_type(), h.tgt_type());
-        let kind = r.below(36);
+        let kind = r.below(38);
         match kind {
             0 => { if let Some(x) = lib(ctx, "identity", "any", &input, || S::identity(sf(a.clone()))) { typed(ctx, "identity", &x, &a, &a, &input); } }
             1 => { if let Some(x) = lib(ctx, "twist", "any", &input, || <S as SymmetricMonoidal>::twist(sf(a.clone()), sf(b.clone()))) { typed(ctx, "twist", &x, &cat(&a, &b), &cat(&b, &a), &input); } }
@@ -242,6 +242,45 @@ impl C05 {
                         typed_lax(ctx, if kind == 34 { "forget" } else { "forget_monogamous" }, &x, &st.src_type(), &st.tgt_type(), &input);
                     }
                 }
+            }
+            36 | 37 => {
+                // in-place deletions on a lax diagram (identifiers may repeat): what is left is well-formed and typed by
+                // the surviving interface entries
+                let pf = gen::lax(r, &pa, 2, false);
+                let mut x = to_lax(&pf);
+                let input = || json!({"f": show_lax(&pf)});
+                if kind == 36 {
+                    let n = pf.w.len();
+                    let mut ids: Vec<usize> = if n == 0 { vec![] } else { let k = r.small(3); r.vec_below(k, n) };
+                    if !ids.is_empty() && r.chance(1, 2) {
+                        let d = ids[r.below(ids.len())];
+                        ids.push(d);
+                        if r.chance(1, 2) { ids.push(d); }
+                    }
+                    let nids: Vec<lax::NodeId> = ids.iter().map(|&i| lax::NodeId(i)).collect();
+                    let keep = |iface: &Vec<usize>| -> Vec<u32> { iface.iter().filter(|v| !ids.contains(v)).map(|&v| pf.w[v]).collect() };
+                    let inp = || json!({"f": show_lax(&pf), "delete_nodes": ids});
+                    if lib(ctx, "delete_nodes", "any", &inp, || x.delete_nodes(&nids)).is_some() {
+                        typed_lax(ctx, "delete_nodes", &x, &keep(&pf.s), &keep(&pf.t), &inp);
+                        ctx.check(x.hypergraph.nodes.len() + { let mut d = ids.clone(); d.sort(); d.dedup(); d.len() } == n, "delete_nodes/removes-exactly-the-named-nodes/value/any", || json!({"input": inp(), "observed_nodes": x.hypergraph.nodes.len()}));
+                    }
+                } else {
+                    let m = pf.e.len();
+                    let mut ids: Vec<usize> = if m == 0 { vec![] } else { let k = r.small(3); r.vec_below(k, m) };
+                    if !ids.is_empty() && r.chance(1, 2) {
+                        let d = ids[r.below(ids.len())];
+                        ids.push(d);
+                        ids.push(d);
+                    }
+                    let eids: Vec<lax::EdgeId> = ids.iter().map(|&i| lax::EdgeId(i)).collect();
+                    let fo = pf.forget_q();
+                    let inp = || json!({"f": show_lax(&pf), "delete_edges": ids});
+                    if lib(ctx, "delete_edges", "any", &inp, || x.delete_edges(&eids)).is_some() {
+                        typed_lax(ctx, "delete_edges", &x, &fo.src_type(), &fo.tgt_type(), &inp);
+                        ctx.check(x.hypergraph.edges.len() + { let mut d = ids.clone(); d.sort(); d.dedup(); d.len() } == m, "delete_edges/removes-exactly-the-named-edges/value/any", || json!({"input": inp(), "observed_edges": x.hypergraph.edges.len()}));
+                    }
+                }
+                let _ = &input;
             }
             32 => {
                 if let Some(x) = lib(ctx, "lax::Identity functor", "any", &input, || lax::functor::dyn_functor::Identity.map_arrow(&to_lax(&f.to_lax()))) { typed_lax(ctx, "lax_identity_functor", &x, &fs, &ft, &input); }
@@ -406,7 +445,8 @@ impl C05 {
     }
 }
 
-const KINDS: [&str; 36] = [
+const KINDS: [&str; 38] = [
+    "delete_nodes", "delete_edges",
     "forget", "forget_monogamous",
     "identity", "twist", "singleton", "tensor_operations", "tensor", "bitor", "dagger", "compose", "shr", "spider", "half_spider", "functor_map_arrow", "identity_functor",
     "optic_map_arrow", "optic_adapt", "to_strict", "from_strict", "lax::identity", "lax::twist", "lax::singleton", "lax::tensor", "lax::compose", "lax_compose", "lax::dagger",
@@ -419,7 +459,7 @@ impl Monitor for C05 {
         "C05"
     }
     fn rule(&self) -> &'static str {
-        "cases: (a) a mixed workload over 36 kinds of public constructor / operation of the strict and lax modules (identity, twist, singleton, tensor_operations, tensor, |, dagger, compose, >>, \
+        "cases: (a) a mixed workload over 38 kinds of public constructor / operation of the strict and lax modules (identity, twist, singleton, tensor_operations, tensor, |, dagger, compose, >>, \
          spider, half_spider, functor and optic application incl. adapt, Identity functors, to_strict / from_strict, lax identity / twist / singleton / tensor / compose / lax_compose / dagger / \
          spider / tensor_assign / quotient, lax functor and lax optic entry points, hypergraph coproduct / discrete / coequalize_vertices, validate() on composites) on seeded well-formed arguments: \
          every returned diagram is walked by the deep well-formedness checker (segment counts, sizes summing to value length, size codomain = sum+1, every incidence and interface entry in range, \
